@@ -123,6 +123,14 @@ def runCase (s : DSt) : String :=
     | some p => (seq.filter (· == p)).length ≥ 2
     | none => false)).length
   let permStr := if perms.isEmpty then "-" else String.intercalate "," perms
+  -- first byte of the row of each real tag: rows that begin with an ASCII-whitespace byte other than space/TAB,
+  -- with VT, or with a Unicode blank (NBSP C2 A0, U+2003 E2 80 83)
+  let rowFirst := (real.filter (!·.isIgnored)).map (fun t => s.src.drop (t.name.s - t.spanS.col))
+  let rowCount := fun (p : List Nat → Bool) => (rowFirst.filter p).length
+  let rsFF := rowCount (fun r => r.head? == some 12)
+  let rsCR := rowCount (fun r => r.head? == some 13)
+  let rsVT := rowCount (fun r => r.head? == some 11)
+  let rsUni := rowCount (fun r => r.take 2 == [0xC2, 0xA0] || r.take 3 == [0xE2, 0x80, 0x83])
   let hullBad := (real.filter (fun t => !t.isIgnored && !judgeHull cfg ms t)).length
   let pls := (real.filter (!·.isIgnored)).filterMap (placementOf cfg ms)
   let plc := fun (k : Nat) => (pls.filter (· == k)).length
@@ -150,7 +158,7 @@ def runCase (s : DSt) : String :=
   let lz := match lossy with
     | [] => "-"
     | m :: _ => m.replace " " "_"
-  s!"{s.id} corr={corr.replace " " "_"} vars={vars} judge={j} tags={real.length} matches={ms.length} skipped={skipped} lossy={lossy.length} lossymsg={lz} multi={multi} nonascii={na} cfgbad={if cfg.invalid then 1 else 0} ties={ties} perms={permStr} plin={plc 0} pleq={plc 1} plfront={plc 2} plbehind={plc 3} mrdocs={(ms.map (fun m => (m.caps.filter (fun c => some c.idx == cfg.docIdx && decide (c.sp.row < c.ep.row))).length)).foldl (· + ·) 0} withdocs={(real.filter (fun t => t.docs.isSome)).length} capi={(capiCheck s).replace " " "_"} names={nm.length} arrbad={arrbad} late={if noLate {} cfg s.src none ms (initSt s.src) then 0 else 1}"
+  s!"{s.id} corr={corr.replace " " "_"} vars={vars} judge={j} tags={real.length} matches={ms.length} skipped={skipped} lossy={lossy.length} lossymsg={lz} multi={multi} nonascii={na} cfgbad={if cfg.invalid then 1 else 0} rsff={rsFF} rscr={rsCR} rsvt={rsVT} rsuni={rsUni} ties={ties} perms={permStr} plin={plc 0} pleq={plc 1} plfront={plc 2} plbehind={plc 3} mrdocs={(ms.map (fun m => (m.caps.filter (fun c => some c.idx == cfg.docIdx && decide (c.sp.row < c.ep.row))).length)).foldl (· + ·) 0} withdocs={(real.filter (fun t => t.docs.isSome)).length} capi={(capiCheck s).replace " " "_"} names={nm.length} arrbad={arrbad} late={if noLate {} cfg s.src none ms (initSt s.src) then 0 else 1}"
 
 def step (s : DSt) (line : String) : IO DSt := do
   match line.splitOn " " with
